@@ -209,6 +209,12 @@ def seq_text(case):
     return "\n".join(lines) + "\n"
 
 
+# freed blocks are overwritten (the Rust half of the binding is not instrumented: a read of freed memory by Rust code
+# is only visible through the value it reads)
+SAN_ENV = dict(os.environ, ASAN_OPTIONS="detect_leaks=1:abort_on_error=0:max_free_fill_size=65536:free_fill_byte=165",
+               UBSAN_OPTIONS="print_stacktrace=1")
+
+
 def run_blocks(binary, blocks, done_tag, timeout=1800):
     """blocks: list of (id, text).  Feeds them to one process; when the process dies (sanitizer report,
     abort, crash) the first block without its completion line is the culprit and the rest is re-run.
@@ -217,8 +223,7 @@ def run_blocks(binary, blocks, done_tag, timeout=1800):
     todo = list(blocks)
     while todo:
         p = subprocess.run([binary], input="".join(t for _, t in todo), stdout=subprocess.PIPE, stderr=subprocess.PIPE,
-                           text=True, timeout=timeout, env=dict(os.environ, ASAN_OPTIONS="detect_leaks=1:abort_on_error=0",
-                                                                UBSAN_OPTIONS="print_stacktrace=1"))
+                           text=True, timeout=timeout, env=SAN_ENV)
         cur, completed = [], set()
         for line in p.stdout.splitlines():
             t = line.split()
@@ -391,7 +396,7 @@ def check_solves(res, recs, seed):
         if kind not in ("sat", "unsat") or (kind == "unsat" and r["obs"]["conflict"]["msg"] is None):
             skipped["reference_failed"] += 1    # a panic / hang of the Rust API belongs to C04, not here
             continue
-        flags = r.get("flags", rng.randrange(8))
+        flags = r.get("flags", rng.randrange(16))
         bid = f"s{i}"
         meta[bid] = (r, flags)
         blocks.append((bid, f"solve {bid} {flags} " + vlib.toks(vlib.tok_universe(c["u"]), vlib.tok_problem(c["p"])) + "\n"))
@@ -424,11 +429,16 @@ def check_solves(res, recs, seed):
             msg = r["obs"]["conflict"]["msg"]
             cpp_msg = bytes.fromhex(rr[1]).decode("utf-8", "replace") if len(rr) > 1 and rr[0] == "unsat" else None
             stats["max_error_bytes"] = max(stats["max_error_bytes"], len(msg))
-            if cpp_msg != msg or (len(rr) > 2 and rr[2] != "0" and not (flags & 2)):
+            if cpp_msg != msg:
                 ok = False
                 res.violation(key, "resolvo::solve from C++ returns a different error text than the Rust API "
                               f"({'solution' if rr[:1] == ['sat'] else 'text'} vs Unsolvable)",
                               dict(rep, cpp=rr[:1], cpp_error=cpp_msg, rust_error=msg))
+            elif len(rr) > 2 and rr[2] != "0":
+                ok = False
+                res.violation(key, f"resolvo::solve from C++ returned an error but left {rr[2]} solvables in the result vector "
+                              "(the Rust API returns no solution; resolvo.h promises an empty vector)",
+                              dict(rep, cpp=rr[:3], rust_error=msg))
         if ok and got.get("mem") != ["bad_layout=0", "foreign_free=0", "keep_bad=0"]:
             ok = False
             res.violation(key, f"resolvo::solve from C++: memory protocol broken across the boundary: {got.get('mem')}",
@@ -473,12 +483,35 @@ def rust_reference(cases=None, streams=None, seed=1):
 
 def probe_strself(res):
     """String::operator=(const String&) on itself (corpus/C17/F11_string_self_assign.json)."""
-    p = subprocess.run([DRIVER], input="strself self\n", stdout=subprocess.PIPE, stderr=subprocess.PIPE, text=True, timeout=120)
+    p = subprocess.run([DRIVER], input="strself self\n", stdout=subprocess.PIPE, stderr=subprocess.PIPE, text=True, timeout=120,
+                       env=SAN_ENV)
     res.count(["strself"], True)
     if p.returncode != 0 or "strself self abc" not in p.stdout:
         res.violation("string-self-assign", "resolvo::String self-assignment (s = s, only handle of its block): "
                       + sanitizer_summary(p.stderr), {"case": {"kind": "strself"}, "stderr": p.stderr[-3000:],
                                                       "model": "Data/CowVector.v string_self_assign_as_written_refuted"})
+
+
+ALIAS_PROBES = {
+    "push_own": "alias push_own 41 41 41 41 41 41 41 | 41 41 41 41 41 41 41 41",
+    "push_own_move": "alias push_own_move 7 8 8",
+    "str_null_view": "alias str_null_view 0 0",
+    "str_assign_subview": "alias str_assign_subview world",
+    "str_assign_cptr": "alias str_assign_cptr world",
+    "const_slice": "alias const_slice 3 3",
+}
+
+
+def probe_alias(res, mode):
+    """container operations whose argument aliases the container (F25-F27): the expectation is what std::vector /
+    std::string do; run under ASan/UBSan like everything else"""
+    p = subprocess.run([DRIVER], input=f"alias {mode}\n", stdout=subprocess.PIPE, stderr=subprocess.PIPE, text=True, timeout=120,
+                       env=SAN_ENV)
+    res.count(["alias", mode], True)
+    if p.returncode != 0 or ALIAS_PROBES[mode] not in p.stdout:
+        res.violation(f"alias-{mode}", f"container operation with an aliasing argument ({mode}): expected '{ALIAS_PROBES[mode]}', got "
+                      f"'{p.stdout.strip()[:200]}' exit {p.returncode} " + sanitizer_summary(p.stderr),
+                      {"case": {"kind": "alias", "mode": mode}, "stderr": p.stderr[-3000:]})
 
 
 def load_case(j):
@@ -496,6 +529,8 @@ def run_one(res, case, seed):
         return check_sequences(res, [case])
     if k == "strself":
         return probe_strself(res)
+    if k == "alias":
+        return probe_alias(res, case["mode"])
     if k == "solve":
         recs = rust_reference(cases=[case["case"]])
         for r in recs:
